@@ -22,7 +22,7 @@ ID = "C11"
 META = {
     "engine": "tapedfs",
     "technique": "stateless exploration of all scripted-RNG tapes within a deviation bound, on the real kernels, for an exhaustive product of small call configurations; stock-build runs with real seeds; reference evaluation of the input model on every result",
-    "text": "Configurations: 7 base models (empty, constant, single variable, linear with offset, quadratic, label gaps, cubic) x every accepted container and label scheme x the four functions x 8 "
+    "text": "Configurations: 8 base models (empty, constant, single variable, linear with offset, quadratic, label gaps, cubic, couplings inserted in shuffled order) x every accepted container and label scheme x the four functions x 8 "
             "schedules (linear/geometric with durations and temperature ranges, [], [0], [0,0], explicit) x 4 initial states x both orders x num_anneals. Scripted build: all tapes within 1 deviation "
             "(quick; 2 on a reduced set) / 2 deviations (thorough; 3 on a reduced set) from the default tape, extreme words and all site indices. Stock build: num_anneals in {-1,0,1,3} x seeds "
             "{None,0,7}. Every result: count, exact key set (all indices up to max_index for native Matrix input), value domain, spin flag, value = reference evaluation incl. offset, best minimal.",
@@ -37,6 +37,8 @@ BASE = [
     ("quad", {(0, 1): -1, (1, 2): 1, (0,): 0.5}),
     ("gap", {(0, 3): 1, (3,): -1}),
     ("cubic", {(0, 1, 2): 1, (0,): -1}),
+    # terms inserted in non-lexicographic order (the neighbour lists handed to the kernel follow insertion order)
+    ("shuffled", {(1, 2): 2, (0, 1): -1, (2, 3): 0.5, (0, 3): 3, (1, 3): -2, (2,): 1, (0,): -0.5}),
 ]
 SCHEDULES = [
     ("geom-default", {"anneal_duration": 2}),
@@ -236,9 +238,9 @@ def gen_cases(tier):
         for case in configs(tier):
             reduced = case["schedule"] in ("geom-default", "explicit") and case["init"] in ("none", "alt")
             if tier == "quick":
-                yield dict(case, d=2 if (reduced and case["base"] in ("quad", "gap", "cubic") and case["scheme"] != "gap") else 1)
+                yield dict(case, d=2 if (reduced and case["base"] in ("quad", "gap", "cubic", "shuffled") and case["scheme"] != "gap") else 1)
             else:
-                yield dict(case, d=3 if (reduced and case["base"] in ("quad", "gap", "cubic") and case["scheme"] != "gap") else 2)
+                yield dict(case, d=3 if (reduced and case["base"] in ("quad", "gap", "cubic", "shuffled") and case["scheme"] != "gap") else 2)
     return it
 
 
